@@ -62,6 +62,14 @@ def case_st(draw):
     for i in range(nd):
         n = draw(st.integers(1, 5)) if i == ax else draw(st.integers(1, 3))
         labels.append(draw(gen.labels(n, kinds="if" if (i == ax or mode == "like") else "ifs")))
+    if len(labels[ax]) >= 3 and draw(st.integers(0, 5)) == 0:
+        # labels whose end points look like default positions (0 ... n-1) while the interior ones are not 1, 2, ...: unevenly spaced nodes
+        n = len(labels[ax])
+        inner = sorted(draw(st.lists(st.integers(1, 4 * (n - 1) - 1), min_size=n - 2, max_size=n - 2, unique=True)))
+        lab = [0.0] + [k / 4.0 for k in inner] + [float(n - 1)]
+        if all(float(i) == x for i, x in enumerate(lab)):
+            lab[1] = 0.25
+        labels[ax] = list(draw(st.permutations(lab))) if draw(st.booleans()) else lab
     vk = draw(st.sampled_from("ffi"))
     ncell = int(np.prod([len(l) for l in labels]))
     vals = [k / 4.0 for k in draw(st.lists(st.integers(-20, 20), min_size=ncell, max_size=ncell))] if vk == "f" else draw(st.lists(st.integers(-9, 9), min_size=ncell, max_size=ncell))
@@ -285,7 +293,13 @@ def run_case(case):
         axis = d if case["axis_form"] == "name" else (list(ds.dims).index(d) - (len(ds.dims) if case["axis_form"] == "neg" else 0))
         if case.get("rehearse"):
             rehearse([ds[k_] for k_ in ds.keys()], lambda: (ds.interp_axis(list(new), axis=axis, **kw), ds.interp_like(da.Axes([da.Axis(np.array(new, dtype=float), d)]), **kw)))
-        res = lib(lambda: ds.interp_axis(list(new), axis=axis, **kw), what=what + " others=%s" % core.jsonable([[o["dims"], o["labels"]] for o in case["others"]]), sig=sig)
+        ds_new = list(new)
+        if case.get("new_as") in ("axis-other-name", "named-dimarray"):
+            # the new coordinates as an Axis object that carries the name of ANOTHER dimension of the dataset (or a foreign name): axis= decides
+            od_ = [x for x in ds.dims if x != d]
+            ds_new = da.Axis(np.array(new, dtype=float), od_[0] if od_ else "other_name_")
+            cl.add("dataset:new-as-axis-of-another-dimension" if od_ else "dataset:new-as-axis-of-a-foreign-name")
+        res = lib(lambda: ds.interp_axis(ds_new, axis=axis, **kw), what=what + " others=%s" % core.jsonable([[o["dims"], o["labels"]] for o in case["others"]]), sig=sig)
         check(isinstance(res, da.Dataset) and list(res.keys()) == [n for n, _ in dspec["vars"]], "dataset-keys", {"what": what}, sig)
         for name, s in dspec["vars"]:
             if d in s["dims"]:
